@@ -639,3 +639,35 @@ func derive8Programs() []Program {
 			Harness: map[string][]byte{"zz_verif_harness.go": []byte(derive8Harness)},
 			Desc:    "derive: instance function of a generic type declared in the type's own package"}}
 }
+
+// ninth family: structs at the widest tuple arity (max.Product = 22) and around it. Instances that rebuild the
+// struct (Monoid, Clone) and those that only read it (Eq) are derived for 21, 22 and 23 fields.
+func derive9Programs() []Program {
+	var ty, hn strings.Builder
+	ty.WriteString("package d9\n\nimport (\n\t\"github.com/csgura/fp\"\n\t\"github.com/csgura/fp/clone\"\n\t\"github.com/csgura/fp/eq\"\n\t\"github.com/csgura/fp/monoid\"\n)\n\n//go:generate gombok\n")
+	hn.WriteString("package d9\n\nimport (\n\tzz \"scratchmod/zzverif\"\n)\n")
+	for _, n := range []int{21, 22, 23} {
+		name := fmt.Sprintf("W%d", n)
+		fmt.Fprintf(&ty, "\ntype %s struct {\n", name)
+		for i := 1; i <= n; i++ {
+			fmt.Fprintf(&ty, "\tF%02d int\n", i)
+		}
+		ty.WriteString("}\n")
+		fmt.Fprintf(&ty, "\n// @fp.Derive\nvar _ eq.Derives[fp.Eq[%s]]\n\n// @fp.Derive\nvar _ clone.Derives[fp.Clone[%s]]\n\n// @fp.Derive\nvar _ monoid.Derives[fp.Monoid[%s]]\n", name, name, name)
+		fmt.Fprintf(&hn, "\nfunc VH_c08_wide_struct_%d() {\n\tvar a, b %s\n", n, name)
+		for i := 1; i <= n; i++ {
+			fmt.Fprintf(&hn, "\ta.F%02d, b.F%02d = zz.Int(\"a%02d\"), zz.Int(\"b%02d\")\n", i, i, i, i)
+		}
+		hn.WriteString("\twant := true\n")
+		for i := 1; i <= n; i++ {
+			fmt.Fprintf(&hn, "\twant = want && a.F%02d == b.F%02d\n", i, i)
+		}
+		fmt.Fprintf(&hn, "\tzz.Assert(Eq%s().Eqv(a, b) == want, \"derived Eq of a %d-field struct is the conjunction of the field equalities\")\n", name, n)
+		fmt.Fprintf(&hn, "\tc := Clone%s().Clone(a)\n\tzz.Assert(c == a, \"derived Clone of a %d-field struct is an equal copy\")\n", name, n)
+		fmt.Fprintf(&hn, "\tm := Monoid%s()\n\tzz.Assert(m.Combine(a, m.Empty()) == a && m.Combine(m.Empty(), a) == a, \"derived Monoid of a %d-field struct: Empty is an identity\")\n\ts := m.Combine(a, b)\n", name, n)
+		fmt.Fprintf(&hn, "\tzz.Assert(s.F01 == m.Combine(%s{F01: a.F01}, %s{F01: b.F01}).F01 && s.F%02d == m.Combine(%s{F%02d: a.F%02d}, %s{F%02d: b.F%02d}).F%02d, \"derived Monoid of a %d-field struct combines field-wise (first and last field)\")\n}\n", name, name, n, name, n, n, name, n, n, n, n)
+	}
+	return []Program{{Pkg: "d9", Files: map[string][]byte{"types.go": []byte(ty.String())},
+		Harness: map[string][]byte{"zz_verif_harness.go": []byte(hn.String())},
+		Desc:    "derive: structs of 21, 22 and 23 fields (Eq, Clone, Monoid)"}}
+}
